@@ -296,7 +296,7 @@ func (w *writer) listLen() int {
 		return 0
 	}
 
-	start := list.start
+	start := list.tableStart
 	return w.elements.len(start)
 }
 
